@@ -110,6 +110,7 @@ def load_world(crate, logdir=None):
     w = symex.World(items, REPO)
     w.crate_dirs = [CRATES[c]["dir"] + "/src" for c in [crate] + CRATES[crate].get("extra", [])]
     w.extra_src_dirs = list(CRATES[crate].get("decl_dirs", []))
+    w.snapshot_sources()
     if CRATES[crate]["assoc"]:
         w.check_assoc_types(CRATES[crate]["assoc"])
     w.dump_s = dt
